@@ -19,9 +19,11 @@ import Pog.Lemmas.SanIdem
     … of an operation with several media types (all positionals, one body keyword)  (partial) `exactly_one_request_multi`
     the twice-sanitised signature name = the once-sanitised URL name               (full)    `ident_eq` (`Pog.sanMethod_idempotent`)
     the URL f-string of the single-media method never reads an unbound name         (full)    `url_ok`
-    method / substituted path / query / headers / body                              (partial) `request_fidelity_partial`
+    method / substituted path / query / headers / cookies / body                    (partial) `request_fidelity_partial`
     optional argument left as None is omitted                                      (full)    `optional_none_omitted`
-    cookie parameters are sent                                                     ✗         `cookie_never_sent_counterexample`, `cookie_never_sent`
+    cookie parameters are sent                                                     full      `cookie_sent_former_witness` (F11 repaired), the cookie
+                                                                                              entries of `request_fidelity_partial`
+    every query / header / cookie entry stems from a parameter declared there       (full)    `no_entry_without_parameter`
     ≥ 2 request media types: query and header arguments are sent                   ✗         `multi_content_drops_query_counterexample`, `multi_content_drops_query`
     an operation-level parameter overrides the path-level one of the same name     full      `path_level_override_former_witness` (F4 repaired), `irParams_no_duplicate_key`
     an integer / number / boolean header argument is sent in its string form       full      `nonstr_header_former_witness` (F39 repaired),
@@ -52,17 +54,19 @@ structure StdCall (op : Op) (args : GArgs) : Prop where
   single : isMulti op = false
   /-- only keywords of the signature, every required one present -/
   bound : bindOk (sigOf op) args = true
-  /-- well-typed: the argument of a header parameter that is NOT declared integer / number / boolean is a string
-      (httpx rejects anything else), unless optional and left out.  (F39 repaired: a parameter declared integer /
+  /-- well-typed: the argument of a header or cookie parameter that is NOT declared integer / number / boolean is a
+      string (httpx rejects anything else), unless optional and left out.  (F39 repaired: a parameter declared integer /
       number / boolean takes any value - it is sent as `str(value)`.) -/
-  headerStr : ∀ p ∈ op.params, p.loc = .header → p.kind = .plain →
+  headerStr : ∀ p ∈ op.params, p.loc = .header ∨ p.loc = .cookie → p.kind = .plain →
     (argVal args p.ident).isStr = true ∨ (p.required = false ∧ argVal args p.ident = .none)
   /-- not the `multipart/form-data; boundary=…` media-type key that makes the method read an unbound name -/
   bodyKnown : ∀ b mt, op.body = some b → primaryBody b.media = some (mt, .bytes) → GenCode.isInfix mtMultipart mt = false
 
-/-- `no cookie parameter` (nor one with an unknown `in`) and every declared path parameter occurs in the template. -/
+/-- No parameter with an unknown `in` (the loader copies `in` verbatim; only path / query / header / cookie have a place
+    in a request) and every declared path parameter occurs in the template.  (F11 repaired: cookie parameters are no
+    longer excluded.) -/
 structure AllSendable (op : Op) : Prop where
-  noCookie : ∀ p ∈ op.params, p.loc = .path ∨ p.loc = .query ∨ p.loc = .header
+  knownLoc : ∀ p ∈ op.params, p.loc = .path ∨ p.loc = .query ∨ p.loc = .header ∨ p.loc = .cookie
   pathUsed : ∀ p ∈ op.params, p.loc = .path → p.name ∈ pathVars op.path
 
 /-- The signature sanitises a parameter name twice, the URL f-string once: the same identifier, because
@@ -71,6 +75,7 @@ theorem ident_eq (p : GParam) : p.ident = sanMethod p.name := sanMethod_idempote
 
 theorem toS_query : GLoc.query.toS ≠ SLoc.path := by decide
 theorem toS_header : GLoc.header.toS ≠ SLoc.path := by decide
+theorem toS_cookie : GLoc.cookie.toS ≠ SLoc.path := by decide
 
 theorem stdBody_ok {op : Op} {args : GArgs} (h : StdCall op args) : ∃ b, stdBody op args = .ok b := by
   unfold stdBody
@@ -91,6 +96,23 @@ theorem stdBody_ok {op : Op} {args : GArgs} (h : StdCall op args) : ∃ b, stdBo
         simp only [this]
         exact ⟨_, rfl⟩
 
+/-- The values written through `_string_value_expr` for a well-typed call are all `str`. -/
+theorem strEntries_isStr {op : Op} {args : GArgs} (h : StdCall op args) (loc : GLoc) (hl : loc.toS ≠ .path)
+    (hloc : loc = .header ∨ loc = .cookie) :
+    ∀ e ∈ strEntries loc.toS (orderedParams op) args, e.2.isStr = true := by
+  intro e he
+  obtain ⟨p, hp, hpl, rfl, hreq⟩ := (mem_strEntries_iff op args loc hl e).mp he
+  cases hk : p.kind with
+  | plain =>
+    simp only [strValue]
+    rcases h.headerStr p hp (by rw [hpl]; exact hloc) hk with hs | ⟨hr, hn⟩
+    · exact hs
+    · rcases hreq with hreq | hreq
+      · rw [hr] at hreq; cases hreq
+      · exact absurd hn hreq
+  | num => rfl
+  | bool => rfl
+
 theorem headers_ok {op : Op} {args : GArgs} (h : StdCall op args) : headerValuesOk (stdHeaders op args) = true := by
   unfold stdHeaders headerValuesOk
   split
@@ -100,18 +122,21 @@ theorem headers_ok {op : Op} {args : GArgs} (h : StdCall op args) : headerValues
     · simp only [Option.some.injEq] at hes
       subst hes
       rw [List.all_eq_true]
+      exact strEntries_isStr h .header toS_header (Or.inl rfl)
+    · cases hes
+
+theorem cookies_ok {op : Op} {args : GArgs} (h : StdCall op args) : cookieValuesOk (stdCookies op args) = true := by
+  unfold stdCookies cookieValuesOk
+  split
+  · rfl
+  · next es hes =>
+    split at hes
+    · simp only [Option.some.injEq] at hes
+      subst hes
+      rw [List.all_eq_true]
       intro e he
-      obtain ⟨p, hp, hpl, rfl, hreq⟩ := (mem_headerEntries_iff op args e).mp he
-      cases hk : p.kind with
-      | plain =>
-        simp only [strValue]
-        rcases h.headerStr p hp hpl hk with hs | ⟨hr, hn⟩
-        · exact hs
-        · rcases hreq with hreq | hreq
-          · rw [hr] at hreq; cases hreq
-          · exact absurd hn hreq
-      | num => rfl
-      | bool => rfl
+      have := strEntries_isStr h .cookie toS_cookie (Or.inr rfl) e he
+      cases hv : e.2 <;> simp_all [GValue.isStr, GValue.isOther]
     · cases hes
 
 /-- In the single-media method every `{var}` of the template is a parameter of the method (declared, or added
@@ -128,13 +153,13 @@ theorem url_ok (op : Op) (args : GArgs) :
 theorem buildRequest_std {op : Op} {args : GArgs} (h : StdCall op args) :
     ∃ b, stdBody op args = .ok b ∧
       buildRequest op args =
-        .ok (⟨op.method, substPath args op.path, stdQuery op args, stdHeaders op args, b⟩ : Request) := by
+        .ok (⟨op.method, substPath args op.path, stdQuery op args, stdHeaders op args, b, stdCookies op args⟩ : Request) := by
   obtain ⟨b, hb⟩ := stdBody_ok h
   refine ⟨b, hb, ?_⟩
   unfold buildRequest
   simp only [h.importable, h.single, Bool.not_true, Bool.false_eq_true, if_false]
   unfold buildStd
-  simp only [h.bound, Bool.not_true, Bool.false_eq_true, if_false, url_ok op args, hb, headers_ok h]
+  simp only [h.bound, Bool.not_true, Bool.false_eq_true, if_false, url_ok op args, hb, headers_ok h, cookies_ok h]
 
 /-! ## exactly one request -/
 
@@ -199,16 +224,119 @@ example : buildRequest exOp exArgs = .ok
       headers := some [("X-Depth".toList, .str "3".toList)],
       body := .json (.other "B".toList) } := by decide +kernel
 
+/-! ## the three dicts in terms of the declared parameters -/
+
+/-- The entries of `params`: one per query parameter that is required or was given a non-None value. -/
+theorem mem_stdQuery_iff (op : Op) (args : GArgs) (e : Str × GValue) :
+    e ∈ (stdQuery op args).getD [] ↔
+      ∃ p ∈ op.params, p.loc = .query ∧ e = (p.name, argVal args p.ident) ∧
+        (p.required = true ∨ argVal args p.ident ≠ .none) := by
+  rw [← mem_entries_iff op args .query toS_query e]
+  unfold stdQuery
+  split
+  · rfl
+  · next hn =>
+    simp only [Option.getD_none, List.not_mem_nil, false_iff]
+    intro he
+    obtain ⟨p, hp, hpl, _⟩ := (mem_entries_iff op args .query toS_query e).mp he
+    exact hn ((any_loc_iff op .query toS_query).mpr ⟨p, hp, hpl⟩)
+
+/-- The entries of `headers`: one per header parameter that is required or was given a non-None value, the value
+    written through `_string_value_expr`. -/
+theorem mem_stdHeaders_iff (op : Op) (args : GArgs) (e : Str × GValue) :
+    e ∈ (stdHeaders op args).getD [] ↔
+      ∃ p ∈ op.params, p.loc = .header ∧ e = (p.name, strValue p.kind (argVal args p.ident)) ∧
+        (p.required = true ∨ argVal args p.ident ≠ .none) := by
+  rw [← mem_strEntries_iff op args .header toS_header e]
+  unfold stdHeaders
+  split
+  · rfl
+  · next hn =>
+    simp only [Option.getD_none, List.not_mem_nil, false_iff]
+    intro he
+    obtain ⟨p, hp, hpl, _⟩ := (mem_strEntries_iff op args .header toS_header e).mp he
+    exact hn ((any_loc_iff op .header toS_header).mpr ⟨p, hp, hpl⟩)
+
+/-- The entries of `cookies` (F11 repaired): one per cookie parameter that is required or was given a non-None value. -/
+theorem mem_stdCookies_iff (op : Op) (args : GArgs) (e : Str × GValue) :
+    e ∈ (stdCookies op args).getD [] ↔
+      ∃ p ∈ op.params, p.loc = .cookie ∧ e = (p.name, strValue p.kind (argVal args p.ident)) ∧
+        (p.required = true ∨ argVal args p.ident ≠ .none) := by
+  rw [← mem_strEntries_iff op args .cookie toS_cookie e]
+  unfold stdCookies
+  split
+  · rfl
+  · next hn =>
+    simp only [Option.getD_none, List.not_mem_nil, false_iff]
+    intro he
+    obtain ⟨p, hp, hpl, _⟩ := (mem_strEntries_iff op args .cookie toS_cookie e).mp he
+    exact hn ((any_loc_iff op .cookie toS_cookie).mpr ⟨p, hp, hpl⟩)
+
+/-- What a request of the single-media method is made of. -/
+theorem buildStd_ok {op : Op} {args : GArgs} {r : Request} (h : buildStd op args = .ok r) :
+    r.method = op.method ∧ r.query = stdQuery op args ∧ r.headers = stdHeaders op args ∧
+      r.cookies = stdCookies op args := by
+  unfold buildStd at h
+  split at h
+  · cases h
+  · split at h
+    · cases h
+    · split at h
+      · cases h
+      · split at h
+        · cases h
+        · split at h
+          · cases h
+          · simp only [Except.ok.injEq] at h
+            subst h
+            exact ⟨rfl, rfl, rfl, rfl⟩
+
+/-- What a request of the implementation method for several media types is made of: no query, no headers, no cookies. -/
+theorem buildOvl_ok {op : Op} {args : GArgs} {r : Request} (h : buildOvl op args = .ok r) :
+    r.method = op.method ∧ r.query = none ∧ r.headers = none ∧ r.cookies = none := by
+  unfold buildOvl at h
+  split at h
+  · cases h
+  · split at h
+    · cases h
+    · split at h
+      · cases h
+      · simp only [Except.ok.injEq] at h
+        subst h
+        exact ⟨rfl, rfl, rfl, rfl⟩
+
+/-- In an importable single-media method the entries of a dict that stem from declared parameters (each required or given
+    a non-None value) have no entry under the name of an optional parameter left as `None`: two declared parameters
+    with the same original name are the same entry of `ordered_params`. -/
+theorem no_entry_for_none {op : Op} {args : GArgs} (hm : moduleOk op = true) (hs : isMulti op = false)
+    {p : GParam} (hp : p ∈ op.params) (hopt : p.required = false) (hnone : argVal args p.ident = .none)
+    (val : GParam → GValue) {es : List (Str × GValue)}
+    (hes : ∀ e ∈ es, ∃ p' ∈ op.params, e = (p'.name, val p') ∧ (p'.required = true ∨ argVal args p'.ident ≠ .none)) :
+    ∀ e ∈ es, e.1 ≠ p.name := by
+  intro e he hname
+  obtain ⟨p', hp', rfl, hreq⟩ := hes e he
+  have hi : p'.info = p.info :=
+    ordered_ident_inj hm hs (info_mem_ordered op p' hp') (info_mem_ordered op p hp)
+      (by simp [info_ident, GParam.ident, show p'.name = p.name from hname])
+  have hreq' : p'.required = p.required := by
+    have := congrArg PInfo.required hi; simpa [GParam.info] using this
+  have hid : p'.ident = p.ident := by simp [GParam.ident, show p'.name = p.name from hname]
+  rw [hreq', hid, hopt] at hreq
+  rcases hreq with hreq | hreq
+  · cases hreq
+  · exact hreq hnone
+
 /-! ## fidelity -/
 
 /-- C04 for the inputs the generator gets right: a well-typed call of a single-media operation yields ONE
     request with
     * the operation's method,
     * the path template with every `{v}` replaced by the value bound to `sanitize_method_name(v)`,
-    * a query (header) entry `original name ↦ value` for every query (header) parameter that is required or
-      was given a non-None value, no entry for an optional one left as None, and nothing else,
+    * a query (header, cookie) entry `original name ↦ value` for every query (header, cookie) parameter that is required
+      or was given a non-None value - a header or cookie value in its string form when the parameter is declared integer /
+      number / boolean -, no entry for an optional one left as None, and nothing else,
     * the body keyword of the primary media type carrying the value of the body parameter;
-    and, when the operation has no cookie parameter and every path parameter occurs in the template, no supplied
+    and, when every parameter has one of the four locations and every path parameter occurs in the template, no supplied
     argument is dropped: every non-None value of a declared parameter is in the location the spec names. -/
 theorem request_fidelity_partial (op : Op) (args : GArgs) (h : StdCall op args) :
     ∃ r, buildRequest op args = .ok r ∧ wire op args = [r] ∧
@@ -226,6 +354,12 @@ theorem request_fidelity_partial (op : Op) (args : GArgs) (h : StdCall op args) 
       (∀ p ∈ op.params, p.loc = .header → p.required = false → argVal args p.ident = .none →
           ∀ e ∈ r.headers.getD [], e.1 ≠ p.name) ∧
       (∀ e ∈ r.headers.getD [], ∃ p ∈ op.params, p.loc = .header ∧ e = (p.name, strValue p.kind (argVal args p.ident))) ∧
+      -- cookies
+      (∀ p ∈ op.params, p.loc = .cookie → (p.required = true ∨ argVal args p.ident ≠ .none) →
+          (p.name, strValue p.kind (argVal args p.ident)) ∈ r.cookies.getD []) ∧
+      (∀ p ∈ op.params, p.loc = .cookie → p.required = false → argVal args p.ident = .none →
+          ∀ e ∈ r.cookies.getD [], e.1 ≠ p.name) ∧
+      (∀ e ∈ r.cookies.getD [], ∃ p ∈ op.params, p.loc = .cookie ∧ e = (p.name, strValue p.kind (argVal args p.ident))) ∧
       -- body
       stdBody op args = .ok r.body ∧
       (∀ b k mt, op.body = some b → primaryBody b.media = some (mt, k) →
@@ -236,67 +370,43 @@ theorem request_fidelity_partial (op : Op) (args : GArgs) (h : StdCall op args) 
       (AllSendable op → ∀ p ∈ op.params, argVal args p.ident ≠ .none →
           (p.loc = .path ∧ Piece.val (argVal args p.ident) ∈ r.path) ∨
           (p.loc = .query ∧ (p.name, argVal args p.ident) ∈ r.query.getD []) ∨
-          (p.loc = .header ∧ (p.name, strValue p.kind (argVal args p.ident)) ∈ r.headers.getD [])) := by
+          (p.loc = .header ∧ (p.name, strValue p.kind (argVal args p.ident)) ∈ r.headers.getD []) ∨
+          (p.loc = .cookie ∧ (p.name, strValue p.kind (argVal args p.ident)) ∈ r.cookies.getD [])) := by
   obtain ⟨b, hb, hr⟩ := buildRequest_std h
-  -- membership in the two dicts, in terms of declared parameters
-  have hq : ∀ e, e ∈ (stdQuery op args).getD [] ↔
-      ∃ p ∈ op.params, p.loc = .query ∧ e = (p.name, argVal args p.ident) ∧
-        (p.required = true ∨ argVal args p.ident ≠ .none) := by
-    intro e
-    rw [← mem_entries_iff op args .query toS_query e]
-    unfold stdQuery
-    split
-    · rfl
-    · next hn =>
-      simp only [Option.getD_none, List.not_mem_nil, false_iff]
-      intro he
-      obtain ⟨p, hp, hpl, _⟩ := (mem_entries_iff op args .query toS_query e).mp he
-      exact hn ((any_loc_iff op .query toS_query).mpr ⟨p, hp, hpl⟩)
-  have hh : ∀ e, e ∈ (stdHeaders op args).getD [] ↔
-      ∃ p ∈ op.params, p.loc = .header ∧ e = (p.name, strValue p.kind (argVal args p.ident)) ∧
-        (p.required = true ∨ argVal args p.ident ≠ .none) := by
-    intro e
-    rw [← mem_headerEntries_iff op args e]
-    unfold stdHeaders
-    split
-    · rfl
-    · next hn =>
-      simp only [Option.getD_none, List.not_mem_nil, false_iff]
-      intro he
-      obtain ⟨p, hp, hpl, _⟩ := (mem_headerEntries_iff op args e).mp he
-      exact hn ((any_loc_iff op .header toS_header).mpr ⟨p, hp, hpl⟩)
-  -- two declared parameters with the same original name are the same entry of `ordered_params`
-  have hinj : ∀ p ∈ op.params, ∀ p' ∈ op.params, p'.name = p.name → p'.info = p.info := by
-    intro p hp p' hp' hn
-    apply ordered_ident_inj h.importable h.single (info_mem_ordered op p' hp') (info_mem_ordered op p hp)
-    simp [info_ident, GParam.ident, hn]
-  have habsent : ∀ (loc : GLoc) (val : GParam → GValue) (es : List (Str × GValue)),
-      (∀ e, e ∈ es → ∃ p ∈ op.params, p.loc = loc ∧ e = (p.name, val p) ∧
-        (p.required = true ∨ argVal args p.ident ≠ .none)) →
-      ∀ p ∈ op.params, p.loc = loc → p.required = false → argVal args p.ident = .none →
-        ∀ e ∈ es, e.1 ≠ p.name := by
-    intro loc val es hes p hp _ hr hn e he hname
-    obtain ⟨p', hp', _, rfl, hreq⟩ := hes e he
-    have hi := hinj p hp p' hp' hname
-    have hreq' : p'.required = p.required := by
-      have := congrArg PInfo.required hi; simpa [GParam.info] using this
-    have hid : p'.ident = p.ident := by simp [GParam.ident, show p'.name = p.name from hname]
-    rw [hreq', hid, hr] at hreq
-    rcases hreq with hreq | hreq
-    · cases hreq
-    · exact hreq hn
-  refine ⟨_, hr, by unfold wire; rw [hr], rfl, rfl, ?_, ?_, ?_, ?_, ?_, ?_, hb, ?_, ?_, ?_⟩
+  have hq := mem_stdQuery_iff op args
+  have hh := mem_stdHeaders_iff op args
+  have hc := mem_stdCookies_iff op args
+  have habsent : ∀ (val : GParam → GValue) (es : List (Str × GValue)),
+      (∀ e ∈ es, ∃ p' ∈ op.params, e = (p'.name, val p') ∧ (p'.required = true ∨ argVal args p'.ident ≠ .none)) →
+      ∀ p ∈ op.params, p.required = false → argVal args p.ident = .none → ∀ e ∈ es, e.1 ≠ p.name :=
+    fun val es hes p hp hopt hnone => no_entry_for_none h.importable h.single hp hopt hnone val hes
+  refine ⟨_, hr, by unfold wire; rw [hr], rfl, rfl, ?_, ?_, ?_, ?_, ?_, ?_, ?_, ?_, ?_, hb, ?_, ?_, ?_⟩
   · intro p hp hpl hreq
     exact (hq _).mpr ⟨p, hp, hpl, rfl, hreq⟩
-  · exact habsent .query _ _ (fun e he => (hq e).mp he)
+  · intro p hp _ hopt hnone
+    refine habsent (fun p => argVal args p.ident) _ (fun e he => ?_) p hp hopt hnone
+    obtain ⟨p', hp', _, he', hreq⟩ := (hq e).mp he
+    exact ⟨p', hp', he', hreq⟩
   · intro e he
     obtain ⟨p, hp, hpl, rfl, _⟩ := (hq e).mp he
     exact ⟨p, hp, hpl, rfl⟩
   · intro p hp hpl hreq
     exact (hh _).mpr ⟨p, hp, hpl, rfl, hreq⟩
-  · exact habsent .header _ _ (fun e he => (hh e).mp he)
+  · intro p hp _ hopt hnone
+    refine habsent (fun p => strValue p.kind (argVal args p.ident)) _ (fun e he => ?_) p hp hopt hnone
+    obtain ⟨p', hp', _, he', hreq⟩ := (hh e).mp he
+    exact ⟨p', hp', he', hreq⟩
   · intro e he
     obtain ⟨p, hp, hpl, rfl, _⟩ := (hh e).mp he
+    exact ⟨p, hp, hpl, rfl⟩
+  · intro p hp hpl hreq
+    exact (hc _).mpr ⟨p, hp, hpl, rfl, hreq⟩
+  · intro p hp _ hopt hnone
+    refine habsent (fun p => strValue p.kind (argVal args p.ident)) _ (fun e he => ?_) p hp hopt hnone
+    obtain ⟨p', hp', _, he', hreq⟩ := (hc e).mp he
+    exact ⟨p', hp', he', hreq⟩
+  · intro e he
+    obtain ⟨p, hp, hpl, rfl, _⟩ := (hc e).mp he
     exact ⟨p, hp, hpl, rfl⟩
   · intro bd k mt hbd hpb
     unfold stdBody at hb
@@ -313,7 +423,7 @@ theorem request_fidelity_partial (op : Op) (args : GArgs) (h : StdCall op args) 
     simp only [hnb, Except.ok.injEq] at hb
     exact hb.symm
   · intro hs p hp hv
-    rcases hs.noCookie p hp with hl | hl | hl
+    rcases hs.knownLoc p hp with hl | hl | hl | hl
     · left
       refine ⟨hl, ?_⟩
       have hmem := hs.pathUsed p hp hl
@@ -323,133 +433,88 @@ theorem request_fidelity_partial (op : Op) (args : GArgs) (h : StdCall op args) 
       exact mem_substPath args op.path p.name hmem
     · right; left
       exact ⟨hl, (hq _).mpr ⟨p, hp, hl, rfl, Or.inr hv⟩⟩
-    · right; right
+    · right; right; left
       exact ⟨hl, (hh _).mpr ⟨p, hp, hl, rfl, Or.inr hv⟩⟩
+    · right; right; right
+      exact ⟨hl, (hc _).mpr ⟨p, hp, hl, rfl, Or.inr hv⟩⟩
 
 example : StdCall exOp exArgs ∧ AllSendable exOp :=
   ⟨exOp_stdCall, ⟨by decide +kernel, by decide +kernel⟩⟩
 
-/-- An optional query / header argument left as `None` never appears in the request — for EVERY operation
+/-- An optional query / header / cookie argument left as `None` never appears in the request — for EVERY operation
     (single- or multi-media) and every call that reaches the transport. -/
 theorem optional_none_omitted (op : Op) (args : GArgs) (r : Request) (h : buildRequest op args = .ok r)
     (p : GParam) (hp : p ∈ op.params) (hopt : p.required = false) (hnone : argVal args p.ident = .none) :
     (p.loc = .query → ∀ e ∈ r.query.getD [], e.1 ≠ p.name) ∧
-    (p.loc = .header → ∀ e ∈ r.headers.getD [], e.1 ≠ p.name) := by
+    (p.loc = .header → ∀ e ∈ r.headers.getD [], e.1 ≠ p.name) ∧
+    (p.loc = .cookie → ∀ e ∈ r.cookies.getD [], e.1 ≠ p.name) := by
   unfold buildRequest at h
   split at h
   · cases h
   · next hm =>
     have hm : moduleOk op = true := by simpa using hm
     split at h
-    · -- several media types: `params=None, headers=None`
-      unfold buildOvl at h
-      split at h
-      · cases h
-      · split at h
-        · cases h
-        · split at h
-          · cases h
-          · simp only [Except.ok.injEq] at h
-            subst h
-            exact ⟨fun _ e he => (by simp at he), fun _ e he => (by simp at he)⟩
+    · -- several media types: `params=None, headers=None`, no `cookies`
+      obtain ⟨_, h1, h2, h3⟩ := buildOvl_ok h
+      rw [h1, h2, h3]
+      exact ⟨fun _ e he => (by simp at he), fun _ e he => (by simp at he), fun _ e he => (by simp at he)⟩
     · next hs =>
       have hs : isMulti op = false := by simpa using hs
-      unfold buildStd at h
-      split at h
-      · cases h
-      · split at h
-        · cases h
-        · split at h
-          · cases h
-          · split at h
-            · cases h
-            · simp only [Except.ok.injEq] at h
-              subst h
-              have key : ∀ (loc : GLoc) (val : GParam → GValue) (es : List (Str × GValue)),
-                  (∀ e ∈ es, ∃ p' ∈ op.params, p'.loc = loc ∧ e = (p'.name, val p') ∧
-                    (p'.required = true ∨ argVal args p'.ident ≠ .none)) →
-                  ∀ e ∈ es, e.1 ≠ p.name := by
-                intro loc val es hes e he hname
-                obtain ⟨p', hp', _, rfl, hreq⟩ := hes e he
-                have hi : p'.info = p.info :=
-                  ordered_ident_inj hm hs (info_mem_ordered op p' hp') (info_mem_ordered op p hp)
-                    (by simp [info_ident, GParam.ident, show p'.name = p.name from hname])
-                have hreq' : p'.required = p.required := by
-                  have := congrArg PInfo.required hi; simpa [GParam.info] using this
-                have hid : p'.ident = p.ident := by simp [GParam.ident, show p'.name = p.name from hname]
-                rw [hreq', hid, hopt] at hreq
-                rcases hreq with hreq | hreq
-                · cases hreq
-                · exact hreq hnone
-              constructor
-              · intro hl e he
-                simp only [stdQuery] at he
-                split at he
-                · exact key .query _ _ (fun e he => (mem_entries_iff op args .query toS_query e).mp he) e he
-                · cases he
-              · intro hl e he
-                simp only [stdHeaders] at he
-                split at he
-                · exact key .header _ _ (fun e he => (mem_headerEntries_iff op args e).mp he) e he
-                · cases he
+      obtain ⟨_, h1, h2, h3⟩ := buildStd_ok h
+      rw [h1, h2, h3]
+      refine ⟨fun _ => ?_, fun _ => ?_, fun _ => ?_⟩
+      · refine no_entry_for_none hm hs hp hopt hnone (fun p => argVal args p.ident) (fun e he => ?_)
+        obtain ⟨p', hp', _, he', hreq⟩ := (mem_stdQuery_iff op args e).mp he
+        exact ⟨p', hp', he', hreq⟩
+      · refine no_entry_for_none hm hs hp hopt hnone (fun p => strValue p.kind (argVal args p.ident)) (fun e he => ?_)
+        obtain ⟨p', hp', _, he', hreq⟩ := (mem_stdHeaders_iff op args e).mp he
+        exact ⟨p', hp', he', hreq⟩
+      · refine no_entry_for_none hm hs hp hopt hnone (fun p => strValue p.kind (argVal args p.ident)) (fun e he => ?_)
+        obtain ⟨p', hp', _, he', hreq⟩ := (mem_stdCookies_iff op args e).mp he
+        exact ⟨p', hp', he', hreq⟩
 
-/-! ## ✗ cookie parameters -/
+/-! ## cookie parameters (F11 repaired) -/
 
-/-- `GET /me` with a required cookie parameter `session`. -/
+/-- `GET /me` with a required cookie parameter `session` and an optional integer one. -/
 def exCookie : Op :=
-  ⟨"GET".toList, [.lit "/me".toList], [⟨"session".toList, .cookie, true, .plain⟩], none, [⟨.num 200, []⟩]⟩
+  ⟨"GET".toList, [.lit "/me".toList],
+   [⟨"session".toList, .cookie, true, .plain⟩, ⟨"page-size".toList, .cookie, false, .num⟩], none, [⟨.num 200, []⟩]⟩
 
-/-- ✗ C04: the cookie argument is accepted by the method and then dropped — the request has no query, no
-    headers (in particular no `Cookie`), no body, and the `transport.request` call has no `cookies=` keyword. -/
-theorem cookie_never_sent_counterexample :
+/-- (cookie parameters are sent)  The FORMER WITNESS of F11: the cookie argument used to be accepted by the method and
+    then dropped (no query, no headers, no body, no `cookies=` keyword).  Since the repair the method builds a `cookies`
+    dict - the optional one left out when `None`, an integer in its string form - and passes `cookies=cookies`. -/
+theorem cookie_sent_former_witness :
     buildRequest exCookie [("session".toList, .str "SECRET".toList)] = .ok
-      { method := "GET".toList, path := [.lit "/me".toList], query := none, headers := none, body := .none } := by
+      { method := "GET".toList, path := [.lit "/me".toList], query := none, headers := none, body := .none,
+        cookies := some [("session".toList, .str "SECRET".toList)] } ∧
+    buildRequest exCookie [("session".toList, .str "SECRET".toList), ("page_size".toList, .other "20".toList)] = .ok
+      { method := "GET".toList, path := [.lit "/me".toList], query := none, headers := none, body := .none,
+        cookies := some [("session".toList, .str "SECRET".toList), ("page-size".toList, .str "20".toList)] } := by
   decide +kernel
 
-/-- The general defect: for EVERY operation and EVERY call, what reaches the transport for a cookie
-    parameter is nothing — the request has no cookie slot, and every query entry stems from a parameter declared
-    `in: query`, every header entry from one declared `in: header`. -/
-theorem cookie_never_sent (op : Op) (args : GArgs) (r : Request) (h : buildRequest op args = .ok r) :
+/-- Nothing reaches the transport that the spec does not name — for EVERY operation and EVERY call: every query entry
+    stems from a parameter declared `in: query`, every header entry from one declared `in: header`, every cookie entry
+    from one declared `in: cookie` (no argument is sent in a different location). -/
+theorem no_entry_without_parameter (op : Op) (args : GArgs) (r : Request) (h : buildRequest op args = .ok r) :
     (∀ e ∈ r.query.getD [], ∃ p ∈ op.params, p.loc = .query ∧ e = (p.name, argVal args p.ident)) ∧
-    (∀ e ∈ r.headers.getD [], ∃ p ∈ op.params, p.loc = .header ∧ e = (p.name, strValue p.kind (argVal args p.ident))) := by
+    (∀ e ∈ r.headers.getD [], ∃ p ∈ op.params, p.loc = .header ∧ e = (p.name, strValue p.kind (argVal args p.ident))) ∧
+    (∀ e ∈ r.cookies.getD [], ∃ p ∈ op.params, p.loc = .cookie ∧ e = (p.name, strValue p.kind (argVal args p.ident))) := by
   unfold buildRequest at h
   split at h
   · cases h
   · split at h
-    · unfold buildOvl at h
-      split at h
-      · cases h
-      · split at h
-        · cases h
-        · split at h
-          · cases h
-          · simp only [Except.ok.injEq] at h
-            subst h
-            exact ⟨fun e he => (by simp at he), fun e he => (by simp at he)⟩
-    · unfold buildStd at h
-      split at h
-      · cases h
-      · split at h
-        · cases h
-        · split at h
-          · cases h
-          · split at h
-            · cases h
-            · simp only [Except.ok.injEq] at h
-              subst h
-              constructor
-              · intro e he
-                simp only [stdQuery] at he
-                split at he
-                · obtain ⟨p, hp, hpl, rfl, _⟩ := (mem_entries_iff op args .query toS_query e).mp he
-                  exact ⟨p, hp, hpl, rfl⟩
-                · cases he
-              · intro e he
-                simp only [stdHeaders] at he
-                split at he
-                · obtain ⟨p, hp, hpl, rfl, _⟩ := (mem_headerEntries_iff op args e).mp he
-                  exact ⟨p, hp, hpl, rfl⟩
-                · cases he
+    · obtain ⟨_, h1, h2, h3⟩ := buildOvl_ok h
+      rw [h1, h2, h3]
+      exact ⟨fun e he => (by simp at he), fun e he => (by simp at he), fun e he => (by simp at he)⟩
+    · obtain ⟨_, h1, h2, h3⟩ := buildStd_ok h
+      rw [h1, h2, h3]
+      refine ⟨fun e he => ?_, fun e he => ?_, fun e he => ?_⟩
+      · obtain ⟨p, hp, hpl, rfl, _⟩ := (mem_stdQuery_iff op args e).mp he
+        exact ⟨p, hp, hpl, rfl⟩
+      · obtain ⟨p, hp, hpl, rfl, _⟩ := (mem_stdHeaders_iff op args e).mp he
+        exact ⟨p, hp, hpl, rfl⟩
+      · obtain ⟨p, hp, hpl, rfl, _⟩ := (mem_stdCookies_iff op args e).mp he
+        exact ⟨p, hp, hpl, rfl⟩
 
 /-! ## ✗ several request media types -/
 
